@@ -1,10 +1,12 @@
 use std::{
     cell::RefCell,
-    collections::{BTreeMap, HashSet},
+    collections::HashSet,
     path::PathBuf,
     rc::Rc,
     sync::Arc,
 };
+
+use indexmap::IndexMap;
 
 use codemap::{Span, Spanned};
 
@@ -366,7 +368,7 @@ impl Configuration {
         self.span.is_none()
     }
 
-    pub fn implicit(values: BTreeMap<Identifier, ConfiguredValue>) -> Self {
+    pub fn implicit(values: IndexMap<Identifier, ConfiguredValue>) -> Self {
         Self {
             values: Arc::new(BaseMapView(Arc::new(RefCell::new(values)))),
             original_config: None,
@@ -374,7 +376,7 @@ impl Configuration {
         }
     }
 
-    pub fn explicit(values: BTreeMap<Identifier, ConfiguredValue>, span: Span) -> Self {
+    pub fn explicit(values: IndexMap<Identifier, ConfiguredValue>, span: Span) -> Self {
         Self {
             values: Arc::new(BaseMapView(Arc::new(RefCell::new(values)))),
             original_config: None,
@@ -384,7 +386,7 @@ impl Configuration {
 
     pub fn empty() -> Self {
         Self {
-            values: Arc::new(BaseMapView(Arc::new(RefCell::new(BTreeMap::new())))),
+            values: Arc::new(BaseMapView(Arc::new(RefCell::new(IndexMap::new())))),
             original_config: None,
             span: None,
         }
